@@ -588,6 +588,29 @@ int main(void)
 			iteration(fam == 4 ? IN_DNS4 : IN_DNS6, d, n);
 			free(d);
 		}
+		else if (!strcmp(tok[0], "wd") && ntok == 6) {
+			/* wd <id> <type> <downenc char> <hexname> <hexpayload>: write_dns() called directly (C09/C10): answer `tx` bytes */
+			struct query q;
+			size_t nlen, plen;
+			unsigned char *name = hex_alloc(tok[4], &nlen), *pay = hex_alloc(tok[5], &plen);
+			struct sockaddr_in *a = (struct sockaddr_in *) &q.from;
+			if (!name || !pay || nlen >= sizeof(q.name)) { puts("bad-op"); free(name); free(pay); continue; }
+			memset(&q, 0, sizeof(q));
+			q.id = (unsigned short) atoi(tok[1]);
+			q.type = (unsigned short) atoi(tok[2]);
+			memcpy(q.name, name, nlen);
+			a->sin_family = AF_INET;
+			a->sin_addr.s_addr = htonl(0x0a630001);
+			a->sin_port = htons(53);
+			q.fromlen = sizeof(*a);
+			write_dns(V4_FD, &q, (char *) pay, (int) plen, tok[3][0]);
+			after_ans = 0;
+			if (!nevents) ev_str("none");
+			fwrite(evbuf, 1, evlen, stdout);
+			putchar('\n');
+			evlen = 0; nevents = 0;
+			free(name); free(pay);
+		}
 		else if (!strcmp(tok[0], "tun") && ntok == 2) {
 			size_t n;
 			unsigned char *d = hex_alloc(tok[1], &n);
